@@ -270,6 +270,10 @@ async fn run_scenario(sc: &Value) -> Value {
             .stalled_stream_protection(aws_sdk_s3::config::StalledStreamProtectionConfig::disabled())
             .build();
         s3s::service::S3ServiceBuilder::new(s3s_aws::Proxy::from(aws_sdk_s3::Client::from_conf(conf)))
+    } else if let Some(root) = cfg.get("fs_root").and_then(|v| v.as_str()) {
+        // config.fs_root: the adapter in front of the real file-system backend (state persists on disk between scenarios)
+        let _ = std::fs::create_dir_all(root);
+        s3s::service::S3ServiceBuilder::new(s3s_fs::FileSystem::new(root).expect("fs root"))
     } else {
         s3s::service::S3ServiceBuilder::new(rec)
     };
